@@ -515,6 +515,19 @@ func (h *tbHist) refusedOpenThenRecover() string {
 	}
 	h.rec("blind", nil)
 	h.line("%s", h.rig.fullObsNoLock())
+	// … now and then the table is closed or released during the wait: the retry must not deal a hand (D32)
+	if h.r.Intn(5) == 0 {
+		what := []string{"close", "release"}[h.r.Intn(2)]
+		if what == "close" {
+			h.rig.te.CloseTable()
+		} else {
+			h.rig.te.ReleaseTable()
+		}
+		h.line("tb %s", what)
+		h.rec(what, nil)
+		h.line("%s", h.rig.fullObsNoLock())
+		h.st.OpMix[what+"-while-an-open-is-being-retried"]++
+	}
 	// … and a re-buy of somebody seated queues up behind the open
 	type queued struct {
 		id    int
@@ -707,6 +720,18 @@ func (h *tbHist) refusedByPositionsThenRecover() string {
 		h.rec("join", err)
 		h.quiesce()
 		h.line("%s", h.stableObs())
+	}
+	if h.r.Intn(5) == 0 {
+		what := []string{"close", "release"}[h.r.Intn(2)]
+		if what == "close" {
+			h.rig.te.CloseTable()
+		} else {
+			h.rig.te.ReleaseTable()
+		}
+		h.line("tb %s", what)
+		h.rec(what, nil)
+		h.line("%s", h.rig.fullObsNoLock())
+		h.st.OpMix[what+"-while-an-open-is-being-retried"]++
 	}
 	if time.Since(free) > 2500*time.Millisecond {
 		h.drop("harness-too-slow-inside-the-retry-wait")
